@@ -22,8 +22,8 @@ def AUX(name, cmd, quick, thorough, model=False, cgo=False):
 PROPS = {
     'C01': {
         'streams': [S('C01', 1500, 30000)],
-        'explanation': 'theorems: one knowing hop is the identity (up to object identity) for every error of exact-decoder kinds, any byte strings, any depth, any number of hops; for EVERY error and every process with closed knowledge everything is stable from the second hop on and the wire message is a fixpoint (from the first hop unless a foreign-platform errno is forwarded); wire message has the shape of the visible tree; a process knowing none of the types re-emits its input verbatim. Correspondence: text/shape tree and encoded message of model vs implementation locally and after 1 and 2 knowing hops on the enumerated kind x kind corpus + random trees; Go relation: text tree equal after hops 1..4, wire bytes of hop k = hop k+1 for k>=1',
-        'not_yet_proved': ['the FIRST hop keeps the text at nodes that decode to the opaque stand-ins (stack layer, pkg/errors, fmt.Errorf, user types); proved: exact-kind errors at the first hop, every error from the second hop on'],
+        'explanation': 'theorems: the first knowing hop (hence k hops) keeps the Error() text at every node and the tree structure for errors of EVERY kind satisfying text_ok (stack layers, pkg/errors, fmt.Errorf, user types, stdlib joins, opaque nodes; hidden errors unconstrained), each condition of text_ok shown necessary by a witness; one knowing hop is the identity (up to object identity) for every error of exact-decoder kinds, any byte strings, any depth, any number of hops; for EVERY error and every process with closed knowledge everything is stable from the second hop on and the wire message is a fixpoint (from the first hop unless a foreign-platform errno is forwarded); wire message has the shape of the visible tree; a process knowing none of the types re-emits its input verbatim. Correspondence: text/shape tree and encoded message of model vs implementation locally and after 1 and 2 knowing hops on the enumerated kind x kind corpus + random trees; Go relation: text tree equal after hops 1..4, wire bytes of hop k = hop k+1 for k>=1',
+        'not_yet_proved': ['first-hop text for the library Join over branches of kinds without exact decoder, and for non-ASCII / multi-line strings below prefix wrappers over opaque stand-ins (outside the proved predicate text_ok; true on the evaluated samples); proved: text at every node and structure over the first hop for every kind under text_ok (C01_text_tree_first_hop), exact-kind errors for any strings, every error from the second hop on'],
         'assumptions': [ASSUME_UNIVERSE, 'regular strings (property quantifier)'],
     },
     'C02': {
@@ -69,14 +69,14 @@ PROPS = {
     },
     'C10': {
         'streams': [S('C10', 1800, 40000)],
-        'explanation': 'theorems: annotation layers transparent for text / root / Is / As, prefix and new-message layers, Handled, nil propagation for every wrapper constructor, CombineErrors / WithSecondaryError nil laws, leaf constructors non-nil. Correspondence: nil-ness, text at every node, root; Go relation: independent compositional model of text and nil-ness over recipes',
-        'not_yet_proved': ['prefix: cause-text for causes whose strings contain newlines'],
+        'explanation': 'theorems: C10_compositional -- for every constructor expression (all ~60 recipe forms incl. formatted messages with %v/%s/%w error arguments, nil arguments, extra arguments, joins, barriers) Error() equals the compositional specification spec_text computed from the expression alone, and the result is nil exactly when the specification is; annotation layers transparent for text / root / Is / As, prefix and new-message layers, Handled, nil propagation for every wrapper constructor, CombineErrors / WithSecondaryError nil laws, leaf constructors non-nil. Correspondence: nil-ness, text at every node, root; Go relation: independent compositional model of text and nil-ness over recipes',
+        'not_yet_proved': ['the compositional text theorem (C10_compositional) is proved for plain strings (ASCII, single-line branches of joins); recipes with multi-line or non-ASCII strings and transferred sub-errors are decided by the correspondence only'],
         'assumptions': [ASSUME_UNIVERSE, 'regular strings'],
     },
     'C11': {
         'streams': [S('C11', 1200, 25000)],
-        'explanation': 'theorems: every accessor is a function of the erasure; exact-kind errors keep every annotation and per-layer safe details over any number of knowing hops; every error is stable from the second hop on; every annotation layer is rebuilt over any cause; unknowing hops invisible later. Correspondence: every accessor, per-layer safe details, reportable stacks, one-line source before and after 1 and 2 knowing hops; Go relation: accessor vector equal after hops 1..3',
-        'not_yet_proved': ['reportable stack frames of stack layers across the first hop (printed-stack codec)'],
+        'explanation': 'theorems: every accessor is a function of the erasure; exact-kind errors keep every annotation and per-layer safe details over any number of knowing hops; every error is stable from the second hop on; every annotation layer is rebuilt over any cause; the printed-stack codec: parse(print st) = st for every stack whose names have no newline (each side condition shown necessary), so stack layers of the library and of pkg/errors report the captured frames and the same one-line source after a hop to ANY process; unknowing hops invisible later. Correspondence: every accessor, per-layer safe details, reportable stacks, one-line source before and after 1 and 2 knowing hops; Go relation: accessor vector equal after hops 1..3',
+        'not_yet_proved': [],
         'assumptions': [ASSUME_UNIVERSE],
     },
     'C12': {
@@ -98,8 +98,8 @@ PROPS = {
     },
     'C15': {
         'streams': [S('C15', 720, 20000)],
-        'explanation': 'Correspondence: message, exceptions (type, value, module, frames) and error-types extra of BuildSentryReport, model vs implementation, local and decoded; Go relation: message prefix, one composition line / type line per layer, exceptions = stack-bearing layers outermost first',
-        'not_yet_proved': ['C15 counting theorems over build_report'],
+        'explanation': 'theorems: message = [source: ] + redacted verbose rendering + composition header; one exception per stack-bearing layer (one synthetic when none); frames of each exception = that layer reportable stack; module = domain; error-types extra; for decoded errors the re-parsed frames are the captured ones and the source prefix comes from the same first frame (printed-stack codec). Correspondence: message, exceptions (type, value, module, frames) and error-types extra of BuildSentryReport, model vs implementation, local and decoded; Go relation: message prefix, one composition line / type line per layer, exceptions = stack-bearing layers outermost first',
+        'not_yet_proved': ['the composition lines of the message (one per layer) are decided by the correspondence only'],
         'assumptions': [ASSUME_UNIVERSE, 'sentry-go event defaults not modelled'],
     },
     'C05': {
